@@ -108,8 +108,10 @@ struct lifetime_monitor : public expectation
   noexcept
   {
     died = true;
-    sequences->validate(severity::nonfatal, call_name, loc);
-
+    if (!sequences->can_be_called())
+    {
+      sequences->validate(severity::nonfatal, call_name, loc);
+    }
     sequences->increment_call();
     if (sequences->is_satisfied())
     {
